@@ -134,9 +134,11 @@ class Env:
         return False
 
 
-def run(fn):
+def run(fn, root=None):
     try:
-        fn(Options())
+        o = Options()
+        o.root_authority = root
+        fn(o)
         return "ok"
     except AdminError:
         return "admin-error"
@@ -196,13 +198,16 @@ def powhsm_body(keys_hash, delta=0, front=False):
     return body + bytes([0x77]) * delta
 
 
+ROOT_OPTS = [None, "04" + "ab" * 64, "", "zz", "0x04" + "ab" * 64]   # not given | a hex key | empty | not hex | prefixed
+
+
 @obligation(tier="quick", parts=2 + NSH, timeout=240,
             part_names=lambda p: ["symbolic: UI target", "symbolic: public keys / root"][p] if p < 2 else
             "symbolic: signer target, header %s" % SIGNER_HEADERS[p - 2].decode(),
             bounds="Ledger verify: one input group symbolic per partition. UI: present / valid / header among 7 / attested key equals the "
                    "operator's or not. Signer: present / valid / header among 9 (current, legacy, foreign, version variants, two over-long ones) / message "
                    "length = documented length + delta, delta in -3..+3 (T: -8..+8), bytes added / removed at the end or at the front of the body (symbolic) / reported keys hash equals or not. Keys file among 6 variants, "
-                   "root authority parses or not",
+                   "root authority parses or not; root authority option not given / a hex key / empty / not hex / 0x-prefixed (symbolic)",
             examples=[(0, dict(present=True, valid=True, hi=0, same=True, delta=0, var=0, root_ok=True)),
                       (6, dict(present=True, valid=True, hi=4, same=True, delta=0, var=0, root_ok=True)),
                       (2, dict(present=True, valid=True, hi=0, same=True, delta=1, var=0, root_ok=True)),
@@ -210,11 +215,13 @@ def powhsm_body(keys_hash, delta=0, front=False):
                       (0, dict(present=True, valid=True, hi=0, same=False, delta=0, var=0, root_ok=True)),
                       (6, dict(present=True, valid=True, hi=4, same=True, delta=-1, var=0, root_ok=True)),
                       (2, dict(present=True, valid=True, hi=0, same=True, delta=0, var=0, root_ok=True))])
-def ledger(present: bool, valid: bool, hi: int, same: bool, delta: int, var: int, root_ok: bool, front: bool = False) -> bool:
+def ledger(present: bool, valid: bool, hi: int, same: bool, delta: int, var: int, root_ok: bool, front: bool = False,
+           ropt: int = 0) -> bool:
     """
     pre: 0 <= hi <= 6
     pre: -DMAX <= delta <= DMAX
     pre: 0 <= var <= 5
+    pre: 0 <= ropt <= 4
     post: _
     """
     focus = [0, 2][part()] if part() < 2 else 1
@@ -230,6 +237,12 @@ def ledger(present: bool, valid: bool, hi: int, same: bool, delta: int, var: int
         var, root_ok = 0, True
     else:
         front = False
+    if focus != 2:
+        ropt = 0
+    root_given = None
+    for k in range(len(ROOT_OPTS)):
+        if ropt == k:
+            root_given = ROOT_OPTS[k]
     ui_key = (b"\x02" + key_of(0)[1:33]) if ui["same"] else (b"\x02" + pat(32, 66))
     ui_msg = ui_message(UI_HEADERS[ui["hi"]], ui_key)
     ui_tweak = pat(32, 7)
@@ -248,14 +261,20 @@ def ledger(present: bool, valid: bool, hi: int, same: bool, delta: int, var: int
     if sg["present"]:
         result["signer"] = (True, sg_msg.hex(), sg_tweak.hex()) if sg["valid"] else (False, "attestation")
     with Env(pubkeys_doc(var), result, root_ok) as env:
-        res = run(vl.do_verify_attestation)
+        res = run(vl.do_verify_attestation, root_given)
         printed = "\n".join(str(x) for x in env.printed)
         roots = env.cert.roots
     ui_ok = ui["present"] and ui["valid"] and ui["hi"] in (0, 1) and ui["same"]
     sg_hdr_ok = sg["hi"] in (0, 1, 4)     # POWHSM:5.x:: and the legacy HSM:SIGNER:x.y
     sg_ok = sg["present"] and sg["valid"] and sg_hdr_ok and sg["delta"] == 0 and sg["same"]
     keys_ok = var == 0
-    want_ok = root_ok and keys_ok and ui_ok and sg_ok
+    # the root authority: the built-in one when none is given, the given one when it is a hex string, an error otherwise
+    root_opt_ok = ropt in (0, 1)
+    want_ok = root_ok and root_opt_ok and keys_ok and ui_ok and sg_ok
+    if not root_opt_ok and roots:
+        return False                       # a certificate was validated although the root authority given is no hex string
+    if roots and getattr(roots[0], "hexkey", None) != (vl.DEFAULT_ROOT_AUTHORITY if ropt == 0 else ROOT_OPTS[1]):
+        return False                       # validated against another root than the operator chose
     # a different key set (variant 1 / 5) changes the hash the message must carry: the operator's hash no longer matches
     if res.startswith("error:"):
         # an uncontrolled exception is still "ends in an error", but never for an input that should verify
